@@ -11,7 +11,7 @@ cp -r /repo/src /repo/test /repo/setup.cfg /repo/pyproject.toml "$scratch"/ 2>/d
 echo "suite: $( cd "$scratch" && PYTHONPATH="$scratch/src" /venv/bin/python -m pytest -q -p no:cacheprovider -n 16 --continue-on-collection-errors 2>&1 | tail -1 )"
 ( cd "$scratch" && PYTHONPATH="$scratch/src" timeout 600 /venv/bin/python "$d/demo.py" >"$scratch/demo_with.out" 2>&1 ); echo "demo with change: exit=$? ($(tail -1 "$scratch/demo_with.out" | cut -c1-120))"
 ( cd /repo && PYTHONPATH=/repo/src timeout 600 /venv/bin/python "$d/demo.py" >"$scratch/demo_without.out" 2>&1 ); echo "demo without change: exit=$? ($(tail -1 "$scratch/demo_without.out" | cut -c1-120))"
-cd /verif
+cd "$(dirname "$(readlink -f "$0")")/.."
 for id in "$@"; do
   TPMSTREAM_SRC="$scratch/src" VERIF_EVIDENCE_DIR="$scratch/evidence" VERIF_REPLAY_DIR="$scratch/replays" /venv/bin/python -m tv.run "$id" --tier "${VERIF_TIER:-quick}" > "$scratch/out.$id" 2>&1
   code=$?
